@@ -491,20 +491,35 @@ class Analysis(object):
         for e in res.execs:
             # find the request this execution belongs to
             owner = None
-            for lst in pend:
-                for q in lst:
-                    if q.get('done'):
-                        continue
-                    if q['pdu'] != e['pdu']:
-                        continue
-                    if framing != 'tls' and e['unit_id'] is not None and q['u'] != e['unit_id']:
-                        continue
-                    if framing == 'tcp' and q['tid'] != e['tid']:
-                        continue
-                    if bcast and q['u'] == 0 and e['ctx_unit'] in [x['ctx_unit'] for x in q['execs']]:
-                        continue
-                    owner = q
+
+            def fits(q):
+                if q['pdu'] != e['pdu']:
+                    return False
+                if framing != 'tls' and e['unit_id'] is not None and q['u'] != e['unit_id']:
+                    return False
+                if framing == 'tcp' and q['tid'] != e['tid']:
+                    return False
+                if bcast and q['u'] == 0 and e['ctx_unit'] in [x['ctx_unit'] for x in q['execs']]:
+                    return False
+                return True
+            # pass 1: the next request of some connection; pass 2: a later one (earlier ones were skipped)
+            for deep in (False, True):
+                for lst in pend:
+                    for q in lst:
+                        if q.get('done'):
+                            continue
+                        if fits(q):
+                            owner = q
+                            break
+                        if not deep and stream:
+                            break
+                    if owner is not None:
+                        break
+                if owner is not None:
                     break
+            for lst in pend:
+                if owner is None or owner not in lst:
+                    continue
                 if owner is not None:
                     if stream:
                         # a stream preserves order: earlier requests of this connection that
